@@ -218,6 +218,8 @@ class EngineBase:
             return T(BOOL, "true")
         if s == OBJ:
             return c.app("truthy", [OBJ], BOOL, [t])
+        if isinstance(s, str) and s.startswith("Row_"):
+            return T(BOOL, "true")  # ORM entities are plain objects: always truthy
         # user datatype: uninterpreted truthiness
         return c.app("truthy_" + mangle(s), [s], BOOL, [t])
 
